@@ -262,7 +262,7 @@ long_cases = st.fixed_dictionaries({"mode": st.sampled_from(MODES), "setup": st.
 
 
 def checks(tier):
-    n, m = {"quick": (1200, 32), "thorough": (60000, 400)}.get(tier, (10, 2))
+    n, m = {"quick": (4000, 64), "thorough": (60000, 400)}.get(tier, (10, 2))
     return [
         Check("undo_redo_histories", fn_history, strategy=cases, examples=n),
         Check("long_runs", fn_history, strategy=long_cases, examples=m),
